@@ -197,7 +197,7 @@ Definition f32_round (q : Qc) : Qc :=
 Definition f32_exact (q : Qc) : bool := Qeq_bool (this (f32_round q)) (this q).
 (* model switch (read by harness/c18.py as well): false = the code as it is (binary32 literals); true = after the repair
    /verif/fixes/proposed_fix_C18_stpnt.diff, which writes double-precision literals (0.1d0) *)
-Definition fixed_stpnt : bool := false.
+Definition fixed_stpnt : bool := true.
 Definition stpnt_value (q : Qc) : Qc := if fixed_stpnt then q else f32_round q.
 (* values that `stpnt` leaves in PAR / U when called *)
 Definition compiled_stpnt (e : emission) : list (Z * Qc) * list (Z * Qc) :=
